@@ -743,6 +743,11 @@ impl DtlsInner {
                             ctx.incomplete_msg_seq = msg.message_seq;
                         }
 
+                        // Only the fragment that continues the buffer is appended; duplicates
+                        // and fragments that arrive early are ignored (the flight is retransmitted).
+                        if msg.fragment_offset as usize != ctx.incomplete_handshake.len() {
+                            continue;
+                        }
                         ctx.incomplete_handshake.extend_from_slice(&msg.body[..]);
 
                         if ctx.incomplete_handshake.len() < msg.total_length as usize {
